@@ -90,6 +90,9 @@ def check(an: Analysis) -> None:
                 ob.fail(get, r.ast, "class-level access to an asynchronous method (Class.method(obj, ...)) does not return the wrapper itself: the receiver is bound to None and the call gets one argument too many")
             if inst is not None and not (isinstance(v, ast.Call) and any(isinstance(x, ast.Attribute) and x.attr == "__method_call__" for x in ast.walk(v)) and any(is_name(x, gp[1]) for x in ast.walk(v))):
                 ob.fail(get, r.ast, "an asynchronous method accessed through an instance is not bound to that instance")
+    from ..kinds import holds_the_decorated_function
+
+    holds_the_decorated_function(an, ob, EW)
     for name, is_method in ((f"{EW}.__call__", False), (f"{EW}.__method_call__", True)):
         f = prog.fn(name)
         va, kwa = vararg_names(f)
@@ -418,6 +421,15 @@ def check(an: Analysis) -> None:
                             ok = False
                 if not ok:
                     ob.fail(of, r, f"{ci.name}.of does not build the trace from what it was given (in debug mode)")
+                elif ci.name == "ResultTrace":
+                    # the outcome is an arbitrary object: recorded as it is also when its truth value is False (0, "", an
+                    # empty container) - and never truth-tested, which an object may refuse
+                    from ..kinds import Abs, reduce_ifexp
+
+                    falsy = Abs("object", truthy=False, tag="a result whose truth value is False")
+                    got = reduce_ifexp(kws["result"], lambda e, pn=params[0]: falsy if is_name(e, pn) else NOVALUE)
+                    if not is_name(unwrap(got) if got is not None else None, params[0]):
+                        ob.fail(of, r, "ResultTrace.of does not record a result whose truth value is False (0, False, '', an empty container): the outcome of the call is replaced by a marker (and the truth test itself may raise for objects that refuse it)")
 
     # ------------------------------------------------------------------ C18.5 every wrapper mimics the wrapped function
     ob = an.ob("C18.5", "K1 provenance", "every wrapper produced by the public decorators (wrapper classes storing the function; nested defs calling it; bound-method partials) is passed through mimic_function/_mimic_async(function, within=<wrapper>) or decorated with @mimic_function(function)")
